@@ -278,6 +278,292 @@ def safe_lex_many(texts):
 PANIC_SHAPE = re.compile(r'(?<![0-9A-Za-z_\u0080-\U0010ffff])[0-9][0-9A-Za-z_.]*[^\x00-\x7f]')
 
 
+# ----------------------------------------------------------- history dependence
+# The Lean models are pure functions of their arguments.  That the Python
+# functions are (no memo / cache / global that lets an earlier call decide a later
+# one) is checked here: every entry point, with every flag combination, is
+# evaluated on the same inputs at several points of the run and in several
+# orders, in this process and in fresh subprocesses; all outputs must agree.
+
+def probe_table(R: 'Real') -> dict:
+    """name -> callable(str): every string entry point with every flag combination"""
+    q, qc, pc, qlast, pgast = R.q, R.qc, R.pc, R.qlast, R.pgast
+    g = qc.generate_source
+    t = {
+        'escape_string': q.escape_string, 'quote_literal': q.quote_literal,
+        'dollar_quote_literal': q.dollar_quote_literal,
+        'gen:Constant': lambda s: g(qlast.Constant.string(s)),
+        'ident_to_str': lambda s: qc.ident_to_str(s),
+        'ident_to_str(allow_num=True)': lambda s: qc.ident_to_str(s, allow_num=True),
+        'param_to_str': qc.param_to_str,
+        'gen:Ptr': lambda s: g(qlast.Path(steps=[qlast.ObjectRef(name='t'), qlast.Ptr(name=s)])),
+        'gen:Ptr(property)': lambda s: g(qlast.Path(steps=[qlast.ObjectRef(name='t'), qlast.Ptr(name='l'),
+                                                              qlast.Ptr(name=s, type='property')])),
+        'gen:ObjectRef': lambda s: g(qlast.ObjectRef(name=s)),
+        'gen:ObjectRef(module)': lambda s: g(qlast.ObjectRef(name='x', module=s)),
+        'gen:TypeName': lambda s: g(qlast.TypeName(maintype=qlast.ObjectRef(name=s, module='m'))),
+        'gen:ModuleAliasDecl': lambda s: g(qlast.SelectQuery(
+            result=qlast.ObjectRef(name='x'), aliases=[qlast.ModuleAliasDecl(module='m', alias=s)])),
+        'gen:CreateObjectType': lambda s: g(qlast.CreateObjectType(name=qlast.ObjectRef(name=s, module='m'))),
+        'gen:Parameter': lambda s: g(qlast.Parameter(name=s)),
+        'pg.quote_literal': pc.quote_literal, 'pg.quote_e_literal': pc.quote_e_literal,
+        'pg.qname': lambda s: pc.qname(s, s), 'pg.quote_type': lambda s: pc.quote_type(s),
+        'pg.edgedb_name_to_pg_name': pc.edgedb_name_to_pg_name,
+        'pg.edgedb_name_to_pg_name(5)': lambda s: pc.edgedb_name_to_pg_name(s, 5),
+        'dbops.encode_value': R.dbase.encode_value,
+        'gen:pg.StringConstant': lambda s: R.pgc.generate_source(pgast.StringConstant(val=s)),
+    }
+    for force in (False, True):
+        for ar in (False, True):
+            for an in (False, True):
+                t[f'quote_ident(force={force},allow_reserved={ar},allow_num={an})'] = \
+                    (lambda s, force=force, ar=ar, an=an: q.quote_ident(s, force=force, allow_reserved=ar, allow_num=an))
+                t[f'needs_quoting({ar},{an})'] = (lambda s, ar=ar, an=an: repr(q.needs_quoting(s, ar, an)))
+        for col in (False, True):
+            t[f'pg.quote_ident(force={force},column={col})'] = \
+                (lambda s, force=force, col=col: pc.quote_ident(s, force=force, column=col))
+    t['pg.needs_quoting'] = lambda s: repr((pc.needs_quoting(s), pc.needs_quoting(s, column=True)))
+    return t
+
+
+def probe_table_bytes(R: 'Real') -> dict:
+    return {
+        'gen:BytesConstant': lambda b: R.qc.generate_source(R.qlast.BytesConstant(value=b)),
+        'pg.quote_bytea_literal': R.pc.quote_bytea_literal,
+        'gen:pg.ByteaConstant': lambda b: R.pgc.generate_source(R.pgast.ByteaConstant(val=b)),
+    }
+
+
+def probe_order(fnames: list, n_inputs: int, order) -> list:
+    """the (function, input index) calls of one phase, in the order `order`:
+    'fwd' function-major; 'rev' function-major, functions and inputs reversed;
+    'interleave' input-major; 'interleave-rev' input-major, functions reversed;
+    an int: shuffled with that seed; a list: explicit calls"""
+    import random
+    if isinstance(order, list):
+        return [tuple(c) for c in order]
+    if order == 'fwd':
+        return [(f, i) for f in fnames for i in range(n_inputs)]
+    if order == 'rev':
+        return [(f, i) for f in reversed(fnames) for i in reversed(range(n_inputs))]
+    if order == 'interleave':
+        return [(f, i) for i in range(n_inputs) for f in fnames]
+    if order == 'interleave-rev':
+        return [(f, i) for i in range(n_inputs) for f in reversed(fnames)]
+    calls = [(f, i) for f in fnames for i in range(n_inputs)]
+    random.Random(order).shuffle(calls)
+    return calls
+
+
+def run_probe(R: 'Real', strings: list, byte_strings: list, order) -> list:
+    """[(function, kind, input index, output)] in execution order"""
+    ts, tb = probe_table(R), probe_table_bytes(R)
+    out = []
+    names = [('s', f) for f in ts] + [('b', f) for f in tb]
+    if isinstance(order, list):
+        calls = [(k, f, i) for (k, f, i) in order]
+    else:
+        cs = probe_order([f for _k, f in names if _k == 's'], len(strings), order)
+        cb = probe_order([f for _k, f in names if _k == 'b'], len(byte_strings), order)
+        calls = [('s', f, i) for f, i in cs] + [('b', f, i) for f, i in cb]
+        if order in ('rev',):
+            calls = [('b', f, i) for f, i in cb] + [('s', f, i) for f, i in cs]
+    for k, f, i in calls:
+        fn = ts[f] if k == 's' else tb[f]
+        arg = strings[i] if k == 's' else byte_strings[i]
+        out.append((f, k, i, R.call(fn, arg)))
+    return out
+
+
+def _probe_main():
+    """entry point of the fresh-process phases: JSON request on stdin, JSON answer on stdout"""
+    import sys
+    req = json.load(sys.stdin)
+    R = Real()
+    strings = [bytes.fromhex(h).decode() for h in req['strings']]
+    bs = [bytes.fromhex(h) for h in req['bytes']]
+    res = run_probe(R, strings, bs, req['order'])
+    json.dump(res, sys.stdout)
+
+
+def fresh_probe(strings: list, byte_strings: list, order) -> list:
+    import subprocess
+    import sys
+    req = json.dumps({'strings': [x.encode().hex() for x in strings], 'bytes': [b.hex() for b in byte_strings],
+                      'order': order})
+    r = subprocess.run([sys.executable, '-c', 'import props.c18 as m; m._probe_main()'], input=req,
+                       capture_output=True, text=True, cwd=os.path.join(core.VERIF, 'harness'))
+    if r.returncode != 0:
+        raise core.Infra('fresh probe process failed: ' + r.stderr[-600:])
+    return [tuple(x) for x in json.loads(r.stdout)]
+
+
+def history_oracle(ctx, phases: dict, strings: list, byte_strings: list) -> dict:
+    """phases: name -> [(function, kind, index, output)] in execution order.  All phases
+    must give the same output for the same (function, input)."""
+    by_call: dict = {}
+    for ph, res in phases.items():
+        for (f, k, i, o) in res:
+            by_call.setdefault((f, k, i), {})[ph] = o
+    bad = [(c, outs) for c, outs in by_call.items() if len(set(map(str, outs.values()))) > 1]
+    bad.sort(key=lambda t: (len(strings[t[0][2]]) if t[0][1] == 's' else len(byte_strings[t[0][2]]), t[0]))
+    # confirmation in fresh processes: the call alone; then the shortest prefix of the earlier calls ON THE SAME
+    # INPUT (taken from a deviating phase) after which the call deviates (binary search), and finally the single
+    # last call of that prefix followed by the call: the concrete pair.
+    confirmed = {}
+    used_inputs = set()
+    for (f, k, i), outs in bad:
+        if (k, i) in used_inputs or len(confirmed) >= 2:
+            continue
+        used_inputs.add((k, i))
+        solo = fresh_probe(strings, byte_strings, [[k, f, i]])[0][3]
+        dev = [ph for ph, o in outs.items() if str(o) != str(solo)]
+        if not dev:
+            continue
+        hist_calls = []
+        for (g, k2, i2, _o) in phases[dev[0]]:
+            if (g, k2, i2) == (f, k, i):
+                break
+            if (k2, i2) == (k, i):
+                hist_calls.append(g)
+
+        def deviates(prefix):
+            res = fresh_probe(strings, byte_strings, [[k, g, i] for g in prefix] + [[k, f, i]])
+            return str(res[-1][3]) != str(solo), res
+        ok_full, _ = deviates(hist_calls)
+        info = {'fresh_process_alone': solo, 'deviating_phase': dev[0], 'earlier_calls_on_this_input': len(hist_calls),
+                'history_reproduces_in_fresh_process': ok_full}
+        if ok_full and hist_calls:
+            lo, hi = 0, len(hist_calls)          # deviates(hist[:hi]) holds, deviates(hist[:lo]) does not
+            while hi - lo > 1:
+                mid = (lo + hi) // 2
+                if deviates(hist_calls[:mid])[0]:
+                    hi = mid
+                else:
+                    lo = mid
+            g = hist_calls[hi - 1]
+            okp, res = deviates([g])
+            info['concrete_pair'] = {'first_call': g, 'first_output': res[0][3], 'second_call': f,
+                                     'second_output': res[1][3], 'second_call_alone': solo,
+                                     'pair_reproduces': okp}
+        confirmed[(f, k, i)] = info
+    for (f, k, i), outs in bad[:60]:
+        x = strings[i] if k == 's' else byte_strings[i]
+        xb = x.encode() if k == 's' else x
+        detail = {'input_hex': xb.hex(), 'is_bytes': k == 'b', 'function': f, 'outputs_by_phase': outs,
+                  'distinct_calls_with_history_dependent_output': len(bad)}
+        if (f, k, i) in confirmed:
+            detail['reproduction'] = confirmed[(f, k, i)]
+        ctx.fail(f'oracle:history-dependent:{f}:{xb.hex()}',
+                 f'{f} gives different outputs for the same input depending on what was called before '
+                 f'(the function is not pure: a memo / cache / global decides)', detail)
+    return {'phases': list(phases), 'calls_per_phase': len(by_call), 'history_dependent_calls': len(bad)}
+
+
+# ------------------------------------------------- whole statements, both positions
+def statement_stream(R: 'Real', id_pool: list, ptr_pool: list, rng, n: int) -> list:
+    """[(template, names, printed text, expected token matchers)]: statements that print the SAME names in
+    pointer position (`.name`, where bare digits are legal) and in non-pointer positions (type / alias /
+    module / DDL names, where they are not), inside one AST and in consecutive ASTs, both orders."""
+    qlast, g = R.qlast, R.qc.generate_source
+
+    def P(a, b, **kw):
+        return qlast.Path(steps=[qlast.ObjectRef(name=a), qlast.Ptr(name=b, **kw)])
+
+    def t_path(a, b):
+        return ('select A.B', (a, b), qlast.SelectQuery(result=P(a, b)),
+                [('kw', 'select'), ('name', a), ('p', '.'), ('ptr', b)])
+
+    def t_ref(a):
+        return ('select A', (a,), qlast.SelectQuery(result=qlast.ObjectRef(name=a)), [('kw', 'select'), ('name', a)])
+
+    def t_alias(al, m, a, b):
+        return ('with AL as module M select A.B', (al, m, a, b),
+                qlast.SelectQuery(result=P(a, b), aliases=[qlast.ModuleAliasDecl(module=m, alias=al)]),
+                [('kw', 'with'), ('name', al), ('kw', 'as'), ('kw', 'module'), ('name', m), ('kw', 'select'),
+                 ('name', a), ('p', '.'), ('ptr', b)])
+
+    def t_cast(m, a, x, b):
+        return ('select <M::A>X.B', (m, a, x, b),
+                qlast.SelectQuery(result=qlast.TypeCast(
+                    expr=P(x, b), type=qlast.TypeName(maintype=qlast.ObjectRef(name=a, module=m)))),
+                [('kw', 'select'), ('p', '<'), ('name', m), ('p', '::'), ('name', a), ('p', '>'),
+                 ('name', x), ('p', '.'), ('ptr', b)])
+
+    def t_create(m, a):
+        return ('create type M::A', (m, a), qlast.CreateObjectType(name=qlast.ObjectRef(name=a, module=m)),
+                [('kw', 'create'), ('kw', 'type'), ('name', m), ('p', '::'), ('name', a)])
+
+    def t_drop(m, a):
+        return ('drop type M::A', (m, a), qlast.DropObjectType(name=qlast.ObjectRef(name=a, module=m)),
+                [('kw', 'drop'), ('kw', 'type'), ('name', m), ('p', '::'), ('name', a)])
+
+    def t_lprop(a, b, c):
+        return ('select A.B@C', (a, b, c),
+                qlast.SelectQuery(result=qlast.Path(steps=[qlast.ObjectRef(name=a), qlast.Ptr(name=b),
+                                                            qlast.Ptr(name=c, type='property')])),
+                [('kw', 'select'), ('name', a), ('p', '.'), ('ptr', b), ('p', '@'), ('ptr', c)])
+
+    seq = []
+    # the same name, pointer position first then non-pointer, and the reverse, on disjoint names
+    both = [x for x in ptr_pool if x in set(id_pool)]
+    for j, x in enumerate(both):
+        if j % 2 == 0:
+            seq += [t_path('t', x), t_ref(x), t_create('m', x), t_path(x, x)]
+        else:
+            seq += [t_ref(x), t_path('t', x), t_drop(x, x), t_lprop(x, 'l', x)]
+    for _ in range(n):
+        a, m, al, x = (rng.choice(id_pool) for _ in range(4))
+        b, c = rng.choice(ptr_pool), rng.choice(ptr_pool)
+        seq.append(rng.choice([lambda: t_path(a, b), lambda: t_ref(a), lambda: t_alias(al, m, a, b),
+                               lambda: t_cast(m, a, x, b), lambda: t_create(m, a), lambda: t_drop(m, a),
+                               lambda: t_lprop(a, b, c)])())
+    out = []
+    for (tmpl, names, node, exp) in seq:
+        out.append((tmpl, names, R.call(g, node), exp))
+    return out
+
+
+def check_statements(ctx, fam, stream: list, id_kind) -> dict:
+    texts = [t for (_a, _b, t, _e) in stream if isinstance(t, str) and not t.startswith('!EXC')]
+    lexed = dict(zip(texts, safe_lex_many(texts)))
+    n_bad = 0
+    for (tmpl, names, text, exp) in stream:
+        r = lexed.get(text)
+        ok = r is not None and r.error is None and len(r.toks) == len(exp) + 1 and r.toks[-1].kind == 'EOI'
+        if ok:
+            for tok, (kind, val) in zip(r.toks, exp):
+                if kind == 'kw':
+                    ok = tok.text.lower() == val and (tok.kind.startswith('Keyword') or tok.kind == 'Ident')
+                elif kind == 'p':
+                    ok = tok.text == val and tok.vkind == 'none'
+                elif kind == 'name':
+                    ok = tok.vkind == 'str' and tok.value == val.encode() and id_kind(tok.kind)
+                else:   # pointer position: an identifier, or bare digits (tuple element / numeric link name)
+                    ok = (tok.kind == 'IntConst' and tok.text == val) or \
+                        (tok.vkind == 'str' and tok.value == val.encode() and id_kind(tok.kind))
+                if not ok:
+                    break
+        big = [v for (k, v) in exp if k == 'ptr' and re.fullmatch(r'[1-9][0-9]*', v) and int(v) > 2 ** 64 - 1]
+        if not ok and big and r is not None and r.error and 'error reading int' in r.error:
+            fam.add('numeric-name-u64-overflow:quote_ident(allow_num)',
+                    'quote_ident(allow_num=True) (pointer position: ident_to_str / visit_Ptr / param_to_str) leaves a '
+                    'purely numeric name bare even when it exceeds 2**64-1; the tokenizer cannot read such an integer '
+                    '("number too large to fit in target type"); the back-quoted form would be accepted',
+                    min(big, key=lambda v: (len(v), v)), text, {'template': tmpl, 'tokenizer_error': r.error})
+            continue
+        if not ok:
+            n_bad += 1
+            if n_bad <= 40:
+                ctx.fail('oracle:statement:' + tmpl.replace(' ', '_') + ':' + ':'.join(x.encode().hex() for x in names),
+                         'a printed statement is not read back by the real tokenizer with the names of the AST '
+                         '(a name in non-pointer position must come back as an identifier, not as a number)',
+                         {'template': tmpl, 'names': list(names), 'names_hex': [x.encode().hex() for x in names],
+                          'printed': text, 'tokenizer_error': r.error if r else None,
+                          'tokens': [(t.kind, t.text) for t in (r.toks if r else [])][:14]})
+    return {'statements': len(stream), 'failed': n_bad}
+
+
 class Families:
     """collects oracle failures per known defect family (minimal witness kept)"""
 
@@ -421,6 +707,20 @@ def run(ctx: core.Ctx):
     S = list(strs)
     Bs = list(byts)
     ctx.log(f'{len(S)} strings, {len(Bs)} byte strings')
+
+    # ---- history-dependence oracle, phase 1: before the corpus goes through anything
+    NUMERIC = ['0', '1', '10', '007', '42', '18446744073709551615', '18446744073709551616', '9' * 20, '1_0', '٣']
+    kw_some = sorted(set(R.qlkw.edgeql_keywords))[::9] + sorted(set(R.pgkw.pg_keywords))[::23]
+    probe_strings = NUMERIC + ['select', 'SELECT', 'abort', '__type__', 'my name', 'a`b', 'a"b', "a'b", '@x', 'a::b', '',
+                               'Ünï', '²a', 'x$', '\'"$', '\\', '\n', '‮', 'a' * 52, '名' * 25 + '~1', '$a$', 'User'] + kw_some
+    probe_strings += [x for x in rng.sample(S, min(len(S), ctx.budget(250, 1500))) if x not in set(probe_strings)]
+    probe_strings = list(dict.fromkeys(probe_strings))
+    probe_bytes = [b'', b'\\', b"'", b'\x00\xff', b'abc', b'\\n'] + rng.sample(Bs, min(len(Bs), ctx.budget(40, 200)))
+    phases = {}
+    if not ctx.replay:
+        phases['fresh process, function-major order'] = fresh_probe(probe_strings, probe_bytes, 'fwd')
+        phases['this process, at start'] = run_probe(R, probe_strings, probe_bytes, 'interleave')
+        ctx.log(f'history probes at start: {len(probe_strings)} strings x {len(probe_table(R))} entry points')
 
     acc = {'LT': 0, 'pg': 0, 'nontriv': 0, 'samples': []}
     n_dis = n_raw = n_lexcmp = n_oracle = n_ctx = n_pg = 0
@@ -812,6 +1112,38 @@ def run(ctx: core.Ctx):
 
     # ---- Unicode class compatibility, all code points (the hypotheses the unquoted-identifier theorem needs)
     ctx.log('SQL oracle done')
+    # ---- history-dependence oracle, later phases: after the corpus went through every entry point
+    hist_cov, stmt_cov = {}, {}
+    if not ctx.replay:
+        phases['this process, after the corpus, reversed order'] = run_probe(R, probe_strings, probe_bytes, 'rev')
+        phases['this process, after the corpus, shuffled'] = run_probe(R, probe_strings, probe_bytes, ctx.seed + 1)
+        phases['fresh process, reversed order'] = fresh_probe(probe_strings, probe_bytes, 'rev')
+        phases['fresh process, input-major (non-pointer entry points first)'] = \
+            fresh_probe(probe_strings, probe_bytes, 'interleave')
+        phases['fresh process, input-major reversed (pointer entry points first)'] = \
+            fresh_probe(probe_strings, probe_bytes, 'interleave-rev')
+        phases['fresh process, shuffled'] = fresh_probe(probe_strings, probe_bytes, ctx.seed + 7)
+        hist_cov = history_oracle(ctx, phases, probe_strings, probe_bytes)
+        ctx.log('history oracle:', hist_cov)
+        # ---- whole statements mixing pointer and non-pointer positions
+        reserved_kw = set(R.qlkw.by_type[R.qlkw.RESERVED_KEYWORD])
+
+        def id_kind2(k):
+            if k == 'Ident':
+                return True
+            m = re.fullmatch(r'Keyword\(Keyword\("(.*)"\)\)', k)
+            return bool(m) and (m.group(1) not in reserved_kw or m.group(1) in ('__type__', '__std__'))
+        cand = list(dict.fromkeys(NUMERIC + ['123', '5', '77', '008', 'select', 'Select', 'abort', 'my name', 'a`b', 'Ünï',
+                                             'x1', '_', 'T', 'type', 'module', 'as', 'with', '__type__']
+                                  + [x for x in probe_strings if 0 < len(x) <= 12][:80]))
+        bts = ['`' + x.replace('`', '``') + '`' for x in cand]
+        btr = safe_lex_many(bts)
+        id_pool = [x for x, t, r in zip(cand, bts, btr)
+                   if is_single_token(r, x.encode(), 'str', len(t.encode()), id_kind2) and '::' not in x]
+        ptr_pool = id_pool
+        stream = statement_stream(R, id_pool, ptr_pool, rng, ctx.budget(1500, 20000))
+        stmt_cov = check_statements(ctx, fam, stream, id_kind2)
+        ctx.log('statement stream:', stmt_cov)
     uni = unicode_sweep(ctx, viol, R)
     ctx.log('unicode sweep done')
 
@@ -850,6 +1182,7 @@ def run(ctx: core.Ctx):
         'oracle_checks_edgeql': n_oracle, 'oracle_checks_in_context': n_ctx, 'oracle_checks_sql_pglex': n_pg,
         'histogram': dict(sorted(hist.items())),
         'unicode_sweep': uni,
+        'history_oracle': hist_cov, 'statement_stream': stmt_cov,
         'disagreements_model_vs_impl': n_dis,
         'real_tokenizer_panics': [t.encode().hex() for t in PANICS[:10]],
         'known_false_regions_hit': {k: v['count'] for k, v in sorted(fam.f.items())},
@@ -881,6 +1214,10 @@ def run(ctx: core.Ctx):
         'harness/rust stub crates (bigdecimal, memchr::memmem::find, phf, unicode_width, thiserror) around the '
         'real tokenizer sources; rustc\'s compiled-in Unicode tables',
         'harness/props/c18.py generators, oracle and canonicalisation (error-message -> class map)',
+        'PURITY: the Lean models are functions of their arguments; that the Python functions are (no memo / cache / '
+        'global state that lets an earlier call decide a later one) is not assumed but checked by the '
+        'history-dependence oracle: every entry point with every flag combination on the same inputs, at start / '
+        'after the corpus / shuffled, in this process and in fresh processes, identical outputs required',
     ]
 
 
